@@ -1,42 +1,612 @@
 package mpb
 
-// Tier-B scenarios: closed programs over the real container, real bars and all library goroutines.
+import (
+	"context"
+	"io"
 
-type vRec struct {
-	writes int
-	bytes  int
-	nl     int
+	"github.com/vbauerster/mpb/v8/decor"
+)
+
+// Tier-B scenarios: closed programs over the real container, real bars and every library goroutine.
+// Bars draw themselves with marker fillers: bar i writes a row of display width 10^i (BarFillerTrim, no
+// decorators), so the display width of a frame is sum_i rows_i*10^i: it encodes how often each bar appears.
+
+const vMaxFrames = 12
+
+type vFrameRec struct {
+	n      int
+	w      [vMaxFrames]int
+	nl     [vMaxFrames]int
+	cuu    [vMaxFrames]int
+	closed bool // set by the harness when Wait has returned
+	late   int  // writes after Wait returned
+	fail   int  // fail the k-th write (1-based), 0 = never
 }
 
-func (r *vRec) Write(p []byte) (int, error) {
-	r.writes++
-	r.bytes += len(p)
-	r.nl += vTextNL(string(p))
+func (r *vFrameRec) Write(p []byte) (int, error) {
+	if r.closed {
+		r.late++
+	}
+	s := string(p)
+	if r.n < vMaxFrames {
+		r.w[r.n] = vTextWidth(s)
+		r.nl[r.n] = vTextNL(s)
+		r.cuu[r.n] = vTextCUU(s)
+	}
+	r.n++
+	if r.fail == r.n {
+		return 0, vErrIO
+	}
 	return len(p), nil
 }
 
-// one bar, non-refreshing container, complete, Wait
-func vsPlain1() {
-	rec := &vRec{}
-	p := New(WithOutput(rec))
-	b, err := p.Add(2, nil)
-	vAssert(err == nil, "S.plain1.add-ok")
-	b.IncrInt64(2)
-	p.Wait()
-	vAssert(b.Completed(), "S.plain1.completed")
-	vAssert(rec.writes == 0, "S.plain1.no-output")
-	vCover("S.plain1.waited")
+type vMark struct {
+	id       int
+	width    int
+	fills    int
+	lastCur  int64
+	lastDone bool
+	lastAb   bool
+	failAt   int // return an error from the k-th Fill (1-based), 0 = never
+	rec      *vFrameRec
+	framesAtFail int // frames written when the failing Fill was called (-1: has not failed)
 }
 
-// one bar, auto-refresh container with a ticker of vTickBudget ticks
-func vsAuto1() {
-	rec := &vRec{}
-	p := New(WithOutput(rec), WithAutoRefresh())
-	b, err := p.Add(2, nil)
-	vAssert(err == nil, "S.auto1.add-ok")
-	b.IncrInt64(2)
-	p.Wait()
-	vAssert(b.Completed(), "S.auto1.completed")
-	vAssert(rec.writes >= 1, "S.auto1.some-output")
-	vCover("S.auto1.waited")
+func (m *vMark) Fill(w io.Writer, st decor.Statistics) error {
+	m.fills++
+	m.lastCur, m.lastDone, m.lastAb = st.Current, st.Completed, st.Aborted
+	if m.failAt == m.fills {
+		if m.rec != nil {
+			m.framesAtFail = m.rec.n
+		}
+		return vErrIO
+	}
+	_, err := io.WriteString(w, vMakeText(m.width, 0))
+	return err
+}
+
+func vNewMark(id int) *vMark {
+	w := 1
+	for i := 0; i < id; i++ {
+		w *= 10
+	}
+	return &vMark{id: id, width: w, framesAtFail: -1}
+}
+
+type vMode int
+
+const (
+	vPlain vMode = iota
+	vAuto
+	vManual
+)
+
+type vEnv struct {
+	rec     *vFrameRec
+	p       *Progress
+	refresh chan interface{}
+	cancel  context.CancelFunc
+	notify  chan interface{}
+}
+
+func vNewContainer(mode vMode, q int, extra ...ContainerOption) *vEnv {
+	e := &vEnv{rec: &vFrameRec{}, notify: make(chan interface{}, 1)}
+	opts := []ContainerOption{WithOutput(e.rec), WithWidth(1000), WithShutdownNotifier(e.notify)}
+	if q >= 0 {
+		opts = append(opts, WithQueueLen(q))
+	}
+	switch mode {
+	case vAuto:
+		opts = append(opts, WithAutoRefresh())
+	case vManual:
+		e.refresh = make(chan interface{})
+		opts = append(opts, WithManualRefresh(e.refresh))
+	}
+	opts = append(opts, extra...)
+	ctx, cancel := context.WithCancel(context.Background())
+	e.cancel = cancel
+	e.p = NewWithContext(ctx, opts...)
+	return e
+}
+
+// vFinish: Wait, then the checks every scenario shares (late calls, notifier, output after Wait).
+func (e *vEnv) vFinish(id string, bars ...*Bar) {
+	e.p.Wait()
+	e.rec.closed = true
+	for _, b := range bars {
+		vAssert(!b.IsRunning(), id+".bar-stopped")
+		vAssert(b.Completed() != b.Aborted(), id+".exactly-one-terminal-flag")
+	}
+	nb, err := e.p.Add(1, nil)
+	vAssert(nb == nil && err == ErrDone, id+".late-add-is-ErrDone")
+	n, werr := e.p.Write([]byte("late"))
+	vAssert(n == 0 && werr == ErrDone, id+".late-write-is-ErrDone")
+	if len(bars) > 0 {
+		bars[0].IncrBy(1)
+		bars[0].SetTotal(5, true)
+		bars[0].Abort(true)
+	}
+	<-e.notify
+	vAssert(e.rec.late == 0, id+".nothing-written-after-Wait")
+	vCover(id + ".waited")
+}
+
+// ---- S1: one bar, complete, Wait (all three modes)
+func vS1(mode vMode, q int) {
+	e := vNewContainer(mode, q)
+	m := vNewMark(0)
+	b, err := e.p.Add(2, m, BarFillerTrim())
+	vAssert(err == nil, "S1.add-ok")
+	b.IncrBy(2)
+	if mode == vManual {
+		e.refresh <- nil
+		e.refresh <- nil
+	}
+	e.vFinish("S1", b)
+	vAssert(b.Completed() && b.Current() == 2, "S1.completed-at-total")
+	if mode == vAuto {
+		last := e.rec.n - 1
+		vAssert(e.rec.n >= 1, "S1.some-frame")
+		vAssert(e.rec.w[last] == 1 && e.rec.nl[last] == 1, "S1.last-frame-shows-the-bar-once")
+		vAssert(m.lastDone && m.lastCur == 2, "S1.last-draw-is-final-state")
+	}
+}
+
+func vsS1Plain()  { vS1(vPlain, -1) }
+func vsS1Auto()   { vS1(vAuto, -1) }
+func vsS1Manual() { vS1(vManual, -1) }
+func vsS1AutoQ0() { vS1(vAuto, 0) }
+func vsS1x()      { vS1(vMode(vParam("mode")), vParam("queueLen")) }
+
+// ---- S2: two bars with width-synchronised decorators (C01, C12, C03)
+
+type vSyncDecor struct {
+	decor.WC
+	text  string
+	calls int
+	last  int
+}
+
+func (d *vSyncDecor) Decor(decor.Statistics) (string, int) {
+	s, w := d.Format(d.text)
+	d.calls++
+	d.last = w
+	return s, w
+}
+
+func vNewSync(text string) *vSyncDecor {
+	d := &vSyncDecor{WC: decor.WC{C: decor.DSyncWidth}, text: text}
+	d.Init()
+	return d
+}
+
+func vS2(mode vMode, q int) {
+	e := vNewContainer(mode, q)
+	d0, d1 := vNewSync(vMakeText(1, 0)), vNewSync(vMakeText(3, 0))
+	m0, m1 := vNewMark(2), vNewMark(3)
+	b0, _ := e.p.Add(2, m0, BarFillerTrim(), PrependDecorators(d0))
+	b1, _ := e.p.Add(2, m1, BarFillerTrim(), PrependDecorators(d1))
+	go b0.IncrBy(2)
+	b1.IncrBy(2)
+	if mode == vManual {
+		e.refresh <- nil
+		e.refresh <- nil
+	}
+	e.vFinish("S2", b0, b1)
+	vAssert(b0.Completed() && b1.Completed(), "S2.both-completed")
+	if mode != vPlain {
+		vAssert(e.rec.n >= 1, "S2.some-frame")
+		// every frame in which both bars were drawn gave both decorators the common width 3
+		vAssert(d0.calls == 0 || d0.last == 3, "S2.column-width-is-the-maximum")
+		vAssert(d1.calls == 0 || d1.last == 3, "S2.column-width-is-the-maximum-1")
+	}
+	if mode == vAuto {
+		last := e.rec.n - 1
+		vAssert(e.rec.w[last] == 100+3+1000+3 && e.rec.nl[last] == 2, "S2.last-frame-shows-both-bars-once")
+		vAssert(m0.lastDone && m1.lastDone, "S2.last-draws-are-final")
+	}
+}
+
+func vsS2x()        { vS2(vMode(vParam("mode")), vParam("queueLen")) }
+func vsS2Auto()     { vS2(vAuto, -1) }
+func vsS2Manual()   { vS2(vManual, -1) }
+func vsS2AutoQ0()   { vS2(vAuto, 0) }
+func vsS2AutoQ1()   { vS2(vAuto, 1) }
+func vsS2ManualQ0() { vS2(vManual, 0) }
+
+// Scenario parameters are concrete per run (vParam): the driver runs one check per combination.
+func vModeParam() vMode { return vMode(vParam("mode")) }
+
+// ---- S3: one bar completes, one is aborted (drop or not), bar removal on complete (C03, C05, C11, C14)
+func vsS3() {
+	mode := vModeParam()
+	e := vNewContainer(mode, -1)
+	drop := vParam("drop") != 0
+	rm := vParam("rm") != 0
+	m0, m1 := vNewMark(0), vNewMark(1)
+	opts0 := []BarOption{BarFillerTrim()}
+	if rm {
+		opts0 = append(opts0, BarRemoveOnComplete())
+	}
+	b0, _ := e.p.Add(2, m0, opts0...)
+	b1, _ := e.p.Add(5, m1, BarFillerTrim())
+	b0.IncrBy(2)
+	b1.IncrBy(1)
+	b1.Abort(drop)
+	if mode == vManual {
+		e.refresh <- nil
+		e.refresh <- nil
+		e.refresh <- nil
+	}
+	e.vFinish("S3", b0, b1)
+	vAssert(b0.Completed() && !b0.Aborted(), "S3.first-bar-completed")
+	vAssert(b1.Aborted() && !b1.Completed() && b1.Current() == 1, "S3.second-bar-aborted")
+	if mode == vAuto {
+		last := e.rec.n - 1
+		want, lines := 0, 0
+		if !rm {
+			want, lines = want+1, lines+1
+		}
+		if !drop {
+			want, lines = want+10, lines+1
+		}
+		vAssert(e.rec.n >= 1 && e.rec.w[last] == want && e.rec.nl[last] == lines, "S3.last-frame-has-exactly-the-bars-that-stay")
+		vAssert(m0.lastDone && m1.lastAb, "S3.last-draws-show-final-states")
+	}
+}
+
+// ---- S4: cancellation / Shutdown at a chosen point of the client program (C14)
+
+type vShutDecor struct {
+	decor.WC
+	notified int
+}
+
+func (d *vShutDecor) Decor(decor.Statistics) (string, int) { return "", 0 }
+func (d *vShutDecor) OnShutdown()                          { d.notified++ }
+
+func vsS4() {
+	mode := vModeParam()
+	e := vNewContainer(mode, -1)
+	l0, l1 := &vShutDecor{}, &vShutDecor{}
+	l0.Init()
+	l1.Init()
+	depth := vParam("wrapDepth")
+	at := vParam("cancelAt")
+	useShutdown := vParam("useShutdown") != 0
+	stop := func() {
+		if useShutdown {
+			go e.p.Shutdown()
+		} else {
+			e.cancel()
+		}
+	}
+	if at == 0 {
+		stop()
+	}
+	b0, err0 := e.p.Add(3, vNewMark(0), BarFillerTrim(), AppendDecorators(vWrap(l0, depth)))
+	if at == 1 {
+		stop()
+	}
+	b1, err1 := e.p.Add(3, vNewMark(1), BarFillerTrim(), PrependDecorators(l1))
+	if b0 != nil {
+		b0.IncrBy(3)
+	}
+	if at == 2 {
+		stop()
+	}
+	if b1 != nil {
+		b1.IncrBy(1)
+	}
+	if mode == vManual {
+		select {
+		case e.refresh <- nil:
+		case <-e.p.done:
+		}
+	}
+	if at == 3 {
+		stop()
+	}
+	e.p.Wait()
+	e.rec.closed = true
+	if err0 == nil {
+		vAssert(!b0.IsRunning() && b0.Completed() != b0.Aborted(), "S4.bar0-stopped-with-one-terminal-flag")
+		vAssert(l0.notified == 1, "S4.wrapped-listener-notified-exactly-once")
+	} else {
+		vAssert(err0 == ErrDone && l0.notified == 0, "S4.rejected-add-notifies-nobody")
+	}
+	if err1 == nil {
+		vAssert(!b1.IsRunning() && b1.Aborted() && !b1.Completed(), "S4.unfinished-bar-reported-aborted")
+		vAssert(l1.notified == 1, "S4.listener-notified-exactly-once")
+	}
+	got := (<-e.notify).([]*Bar)
+	vAssert(len(got) <= 2, "S4.notifier-lists-at-most-the-added-bars")
+	vAssert(e.rec.late == 0, "S4.nothing-written-after-Wait")
+	vCover("S4.waited")
+}
+
+// ---- S5: a render error (filler, output writer) shuts the container down cleanly (C15)
+func vsS5() {
+	mode := vModeParam()
+	sync := vParam("sync") != 0
+	dbg := &vFrameRec{}
+	e := vNewContainer(mode, -1, WithDebugOutput(dbg))
+	m0, m1 := vNewMark(0), vNewMark(1)
+	m0.rec, m1.rec = e.rec, e.rec
+	which := vParam("failingBar")
+	k := vParam("failAtFill")
+	switch which {
+	case 0:
+		m0.failAt = k
+	case 1:
+		m1.failAt = k
+	default:
+		e.rec.fail = k // the output writer fails instead
+	}
+	opts0 := []BarOption{BarFillerTrim()}
+	opts1 := []BarOption{BarFillerTrim()}
+	if sync {
+		opts0 = append(opts0, PrependDecorators(vNewSync(vMakeText(1, 0))))
+		opts1 = append(opts1, PrependDecorators(vNewSync(vMakeText(2, 0))))
+	}
+	b0, _ := e.p.Add(4, m0, opts0...)
+	b1, _ := e.p.Add(4, m1, opts1...) // may already be refused if the error struck first
+	if b0 != nil {
+		b0.IncrBy(1)
+	}
+	if b1 != nil {
+		b1.IncrBy(1)
+	}
+	if mode == vManual {
+		for i := 0; i < 3; i++ {
+			select {
+			case e.refresh <- nil:
+			case <-e.p.done:
+			}
+		}
+		e.cancel()
+	}
+	e.p.Wait()
+	e.rec.closed = true
+	vAssert((b0 == nil || !b0.IsRunning()) && (b1 == nil || !b1.IsRunning()), "S5.all-bars-cancelled")
+	failed := m0.failAt > 0 && m0.fills >= m0.failAt || m1.failAt > 0 && m1.fills >= m1.failAt || (e.rec.fail > 0 && e.rec.n >= e.rec.fail)
+	if failed {
+		vAssert(dbg.n == 1, "S5.error-reported-to-debug-output-exactly-once")
+	} else {
+		vAssert(dbg.n == 0, "S5.no-error-no-report")
+	}
+	if m0.framesAtFail >= 0 {
+		vAssert(e.rec.n == m0.framesAtFail, "S5.no-frame-in-or-after-the-failing-cycle")
+	}
+	if m1.framesAtFail >= 0 {
+		vAssert(e.rec.n == m1.framesAtFail, "S5.no-frame-in-or-after-the-failing-cycle")
+	}
+	if e.rec.fail > 0 && e.rec.n >= e.rec.fail {
+		vAssert(e.rec.n == e.rec.fail, "S5.no-frame-after-the-failing-write")
+	}
+	<-e.notify
+	vAssert(e.rec.late == 0, "S5.nothing-written-after-Wait")
+	vCover("S5.waited")
+}
+
+// ---- S6: a bar queued after another (C17)
+func vsS6() {
+	mode := vModeParam()
+	e := vNewContainer(mode, -1)
+	late := vParam("successorAfterPredecessorFinished") != 0
+	two := vParam("twoSuccessors") != 0
+	m0, m1, m2, m3 := vNewMark(0), vNewMark(1), vNewMark(2), vNewMark(3)
+	other, _ := e.p.Add(2, m3, BarFillerTrim())
+	pred, _ := e.p.Add(2, m0, BarFillerTrim())
+	var succ, succ2 *Bar
+	if !late {
+		succ, _ = e.p.Add(2, m1, BarFillerTrim(), BarQueueAfter(pred))
+		if two {
+			succ2, _ = e.p.Add(2, m2, BarFillerTrim(), BarQueueAfter(pred))
+		}
+	}
+	pred.IncrBy(2)
+	if mode == vManual {
+		e.refresh <- nil
+		e.refresh <- nil
+		e.refresh <- nil
+	}
+	if late {
+		pred.Wait()
+		succ, _ = e.p.Add(2, m1, BarFillerTrim(), BarQueueAfter(pred))
+	}
+	succ.IncrBy(2)
+	if succ2 != nil {
+		succ2.IncrBy(2)
+	}
+	other.IncrBy(2)
+	if mode == vManual {
+		e.refresh <- nil
+		e.refresh <- nil
+		e.refresh <- nil
+	}
+	id := "S6"
+	if late {
+		id = "S6.late-successor"
+	} else if two {
+		id = "S6.two-successors"
+	}
+	e.vFinish(id, pred, succ, other)
+	vAssert(succ.Completed(), id+".successor-completed")
+	if mode != vPlain {
+		vAssert(m1.fills >= 1, id+".successor-was-displayed")
+		// the successor is never drawn before the predecessor's last frame: it is drawn fewer times
+		vAssert(m0.fills >= 1, id+".predecessor-was-displayed")
+	}
+	if mode == vAuto {
+		// the successor takes the predecessor's place: the last frame shows the successor(s) and the other bar
+		last := e.rec.n - 1
+		want := 10 + 1000
+		lines := 2
+		if succ2 != nil {
+			want, lines = want+100, lines+1
+		}
+		vAssert(e.rec.w[last] == want && e.rec.nl[last] == lines, id+".last-frame-shows-successor-and-other-bar")
+	}
+}
+
+// ---- S7: pop-completed mode (C18): every finished bar stays on screen exactly once
+func vsS7() {
+	mode := vModeParam()
+	e := vNewContainer(mode, -1, PopCompletedMode())
+	noPop := vParam("noPop") != 0
+	m0, m1 := vNewMark(0), vNewMark(1)
+	opts0 := []BarOption{BarFillerTrim()}
+	if noPop {
+		opts0 = append(opts0, BarNoPop())
+	}
+	b0, _ := e.p.Add(2, m0, opts0...)
+	b1, _ := e.p.Add(2, m1, BarFillerTrim())
+	b0.IncrBy(2)
+	if mode == vManual {
+		for i := 0; i < 4; i++ {
+			e.refresh <- nil
+		}
+	}
+	b1.IncrBy(2)
+	if mode == vManual {
+		for i := 0; i < 4; i++ {
+			e.refresh <- nil
+		}
+	}
+	e.vFinish("S7", b0, b1)
+	// lines that must remain on screen: emulate the terminal over the recorded frames
+	// (cursor-up n erases the last n lines, then the frame's lines are appended)
+	lines, width := 0, 0
+	for i := 0; i < e.rec.n && i < vMaxFrames; i++ {
+		if i > 0 {
+			// the previous frame's redrawn part is replaced
+			lines -= e.rec.cuu[i]
+			width -= vPrevRedraw[i]
+		}
+		lines += e.rec.nl[i]
+		width += e.rec.w[i]
+		_ = width
+	}
+	vAssert(e.rec.n < vMaxFrames, "S7.frames-within-recorder-capacity")
+	if mode != vPlain {
+		vAssert(lines == 2, "S7.each-finished-bar-is-on-screen-exactly-once")
+	}
+}
+
+var vPrevRedraw [vMaxFrames]int
+
+// ---- S8: text written through the container (C13)
+type vLineRec struct {
+	vFrameRec
+}
+
+func vsS8() {
+	mode := vModeParam()
+	e := vNewContainer(mode, -1)
+	m0 := vNewMark(0)
+	b0, _ := e.p.Add(2, m0, BarFillerTrim())
+	accepted := 0
+	wdone := make(chan struct{})
+	go func() {
+		for i := 0; i < 2; i++ {
+			n, err := e.p.Write([]byte(vMakeText(100, 1)))
+			if err == nil && n == 101 {
+				accepted++
+			} else {
+				vAssert(n == 0 && err == ErrDone, "S8.rejected-write-is-ErrDone")
+			}
+		}
+		close(wdone)
+	}()
+	if vParam("completeFirst") != 0 {
+		b0.IncrBy(2)
+		<-wdone
+	} else {
+		<-wdone
+		b0.IncrBy(2)
+	}
+	if mode == vManual {
+		e.refresh <- nil
+		e.refresh <- nil
+	}
+	e.vFinish("S8", b0)
+	if mode == vAuto {
+		// every accepted line (width 100, one newline) was written exactly once: total width = 100*accepted + bar rows
+		totalW, totalNL, rows := 0, 0, 0
+		for i := 0; i < e.rec.n && i < vMaxFrames; i++ {
+			totalW += e.rec.w[i]
+			totalNL += e.rec.nl[i]
+		}
+		rows = m0.fills
+		vAssert(e.rec.n < vMaxFrames, "S8.frames-within-recorder-capacity")
+		vAssert(totalW == 100*accepted+rows && totalNL == accepted+rows, "S8.every-accepted-line-emitted-exactly-once")
+	}
+}
+
+// ---- S9: more bars than the heap-manager queue holds (C01, C02, C05)
+func vsS9() {
+	mode := vModeParam()
+	e := vNewContainer(mode, vParam("queueLen"))
+	m0, m1 := vNewMark(0), vNewMark(1)
+	b0, _ := e.p.Add(2, m0, BarFillerTrim())
+	b1, _ := e.p.Add(2, m1, BarFillerTrim())
+	if mode == vManual {
+		e.refresh <- nil
+		e.refresh <- nil
+	}
+	b0.IncrBy(2)
+	b1.IncrBy(2)
+	if mode == vManual {
+		e.refresh <- nil
+		e.refresh <- nil
+	}
+	e.vFinish("S9", b0, b1)
+	if mode != vPlain {
+		// a frame shows bar 0 alone (the second bar not added yet) or both bars; once both have been shown none
+		// of them may vanish from a later frame (both stay in the container until the end)
+		both := false
+		for i := 0; i < e.rec.n && i < vMaxFrames; i++ {
+			w := e.rec.w[i]
+			vAssert(w == 0 || w == 1 || w == 11, "S9.frame-shows-each-bar-at-most-once-in-order-of-creation")
+			if both {
+				vAssert(w == 11 && e.rec.nl[i] == 2, "S9.every-frame-shows-both-bars-once")
+			}
+			if w == 11 {
+				both = true
+			}
+		}
+	}
+}
+
+// ---- S11: two client goroutines on one bar (C10): no update is lost
+func vsS11() {
+	mode := vModeParam()
+	e := vNewContainer(mode, -1)
+	m0 := vNewMark(0)
+	b, _ := e.p.Add(10, m0, BarFillerTrim())
+	done := make(chan struct{})
+	go func() {
+		b.IncrBy(2)
+		b.SetRefill(1)
+		done <- struct{}{}
+	}()
+	go func() {
+		b.IncrBy(3)
+		_ = b.Current()
+		done <- struct{}{}
+	}()
+	c1 := b.Current()
+	<-done
+	<-done
+	c2 := b.Current()
+	vAssert(c1 == 0 || c1 == 2 || c1 == 3 || c1 == 5, "S11.getter-sees-a-state-on-some-sequential-order")
+	vAssert(c2 == 5, "S11.no-update-lost-at-quiescence")
+	b.IncrBy(5)
+	if mode == vManual {
+		e.refresh <- nil
+		e.refresh <- nil
+	}
+	e.vFinish("S11", b)
+	vAssert(b.Current() == 10 && b.Completed(), "S11.final-state")
 }
